@@ -29,6 +29,7 @@ def run(ctx):
         "never sliced (in every quick run): request kinds on redirect routes - GET, HEAD, POST with a body (1 byte / 32 KiB+1), Upgrade: websocket / Websocket handshakes, Accept: text/event-stream - x 4 targets (two naming the instrumented upstream, so a request proxied instead of redirected is seen there) x {301, 308} x {plain, TLS}: all must get the configured 3xx + Location and contact no upstream; an exchange that breaks off on each of 4 attempts counts as 'never received the redirect' (timeouts excepted); strip/prepend values that need escaping (non-ASCII letter, ^) x 3 targets x 5 client paths spelling the prefix %C3%B6 / %c3%b6 / %5E",
         "never sliced: histories of 2 and 3 requests sent one after the other through ONE redirect route whose host pattern (*.<key>.test) matches several hosts - all 64 ordered pairs of 8 requests differing in host (a./b.), path (incl. %2F) and query, and each pair with the first request repeated at the end - x 4 targets ($host with $path, $host with $path and own query, $host static, $path only) x {plain, TLS}; every answer must be the one that follows from its own request alone (invariant HistoryIndependent), whatever was asked before (the histories of one target also follow one another)",
         "never sliced: 32 bursts - 8 requests (hosts a./b., 4 paths, queries) sent at the same moment over connections opened beforehand to one of fabio's own listeners (proxy.ListenAndServeHTTP) in front of a proxy of its own that has answered no redirect yet, metrics handlers set as in main (redirect counter) - x 4 targets x {301, 302, 307, 308} x {plain, TLS}: every request gets its own answer; run twice, the second time with the race detector; a proxy process that dies (Go 'fatal error') or a data race inside fabio is a violation",
+        "never sliced (round 4): glob.matching.disabled on and off (a dimension of the request-kind cases too) with the documented layout redirect on host:80 + route on the same host without port: a redirect pointing back is passed over in favour of the latter; a self-redirect on a route WITHOUT a host (the last candidate) leaves the request without a route; '$host' and '$path' as plain text in the client's path and query stay as they are",
         "in the replay of TLC's cases requests to the same redirect target are issued one after the other; simultaneous requests are covered by the concurrent stress runs of the DataPlane harness (16 goroutines, every documented $path/$host form, race detector), which this check runs as its 'schedules' part",
     ]
     base.run_prop(ctx, "C13", ctx.pick(4, 1),
